@@ -391,6 +391,99 @@ func Origins(v ssa.Value) []ssa.Value {
 	return out
 }
 
+// CtxFieldValues: fa addresses a field of a *context struct* - a struct type of the module that a function allocates
+// (`&T{...}` / `new(T)`), fills and hands by pointer to helpers extracted from it (parameter or receiver of the
+// helper). Returns the values the callers stored into that field of the struct they pass; ok is false when fa is not
+// such an access or some call site cannot be resolved (the struct is not allocated by the caller, the helper is
+// called dynamically). An "extract method with a parameter object" refactoring is followed this way.
+func CtxFieldValues(fa *ssa.FieldAddr) (vals []ssa.Value, ok bool) {
+	return ctxFieldValues(fa, 0)
+}
+
+// CtxFieldValuesByName is CtxFieldValues for (base, field name) as condition facts report a field access.
+func CtxFieldValuesByName(base ssa.Value, field string) ([]ssa.Value, bool) {
+	par, ok := Strip(base).(*ssa.Parameter)
+	if !ok {
+		return nil, false
+	}
+	pt, ok := par.Type().Underlying().(*types.Pointer)
+	if !ok {
+		return nil, false
+	}
+	st, ok := pt.Elem().Underlying().(*types.Struct)
+	if !ok {
+		return nil, false
+	}
+	for i := 0; i < st.NumFields(); i++ {
+		if st.Field(i).Name() == field {
+			return ctxFieldValues(&ssa.FieldAddr{X: par, Field: i}, 0)
+		}
+	}
+	return nil, false
+}
+
+func ctxFieldValues(fa *ssa.FieldAddr, depth int) (vals []ssa.Value, ok bool) {
+	par, isPar := fa.X.(*ssa.Parameter)
+	if !isPar || depth > 2 {
+		return nil, false
+	}
+	pt, isPtr := par.Type().Underlying().(*types.Pointer)
+	if !isPtr {
+		return nil, false
+	}
+	named, isNamed := pt.Elem().(*types.Named)
+	if !isNamed || named.Obj() == nil || named.Obj().Pkg() == nil || !InModulePath(named.Obj().Pkg().Path()) || named.Obj().Exported() {
+		return nil, false
+	}
+	if _, isStruct := named.Underlying().(*types.Struct); !isStruct {
+		return nil, false
+	}
+	fn := par.Parent()
+	if fn == nil || TheProg == nil || !TheProg.InModule(fn) {
+		return nil, false
+	}
+	pi := -1
+	for i, q := range fn.Params {
+		if q == par {
+			pi = i
+		}
+	}
+	sitesOf := StaticSitesOf(fn)
+	if pi < 0 || len(sitesOf) == 0 {
+		return nil, false
+	}
+	for _, site := range sitesOf {
+		args := site.Common().Args
+		if pi >= len(args) {
+			return nil, false
+		}
+		switch a := Strip(args[pi]).(type) {
+		case *ssa.Alloc:
+			for _, r := range *a.Referrers() {
+				f2, isFA := r.(*ssa.FieldAddr)
+				if !isFA || f2.X != ssa.Value(a) || f2.Field != fa.Field {
+					continue
+				}
+				for _, rr := range *f2.Referrers() {
+					if st, isSt := rr.(*ssa.Store); isSt && st.Addr == ssa.Value(f2) {
+						vals = append(vals, st.Val)
+					}
+				}
+			}
+		case *ssa.Parameter:
+			// the context is handed on by an intermediate helper
+			sub, subOK := ctxFieldValues(&ssa.FieldAddr{X: a, Field: fa.Field}, depth+1)
+			if !subOK {
+				return nil, false
+			}
+			vals = append(vals, sub...)
+		default:
+			return nil, false
+		}
+	}
+	return vals, true
+}
+
 // Mentions reports whether pred holds for v or anything v is computed from
 // (operands, transitively, through phis, calls' arguments, field/index
 // addressing and loads of local allocs). Bounded depth.
@@ -410,6 +503,23 @@ func Mentions(v ssa.Value, pred func(ssa.Value) bool) bool {
 				if walk(s, d+1) {
 					return true
 				}
+			}
+			return false
+		}
+		if fa, ok := v.(*ssa.FieldAddr); ok {
+			if vals, ok := CtxFieldValues(fa); ok {
+				for _, cv := range vals {
+					if walk(cv, d+1) {
+						return true
+					}
+				}
+			}
+		}
+		if fv, ok := v.(*ssa.FreeVar); ok {
+			// a variable captured by a closure: what the enclosing function stored into it
+			// (`limit := d.Nanoseconds()` hoisted out of an iteration callback)
+			if id := VarIdentity(fv); id != nil && id != ssa.Value(fv) {
+				return walk(id, d+1)
 			}
 			return false
 		}
@@ -490,6 +600,15 @@ func MentionsThroughCalls(v ssa.Value, pred func(ssa.Value) bool, inScope func(*
 				return res
 			}
 		}
+		if fa, ok := v.(*ssa.FieldAddr); ok {
+			if vals, ok := CtxFieldValues(fa); ok {
+				for _, cv := range vals {
+					if walk(cv, d+1) {
+						return true
+					}
+				}
+			}
+		}
 		in, ok := v.(ssa.Instruction)
 		if !ok {
 			return false
@@ -567,8 +686,54 @@ func FieldOf(v ssa.Value) (owner, field string, base ssa.Value, ok bool) {
 		return RecvTypeName(x.X.Type()), fieldName(x.X.Type(), x.Field), x.X, true
 	case *ssa.Field:
 		return RecvTypeName(x.X.Type()), fieldName(x.X.Type(), x.Field), x.X, true
+	case *ssa.Call:
+		// a field accessor of the module (`func (o *T) ensureF() *F { if o.f == nil { o.f = ... }; return o.f }`)
+		// stands for the load of that field of its receiver argument
+		if fa := accessorField(x.Call.StaticCallee()); fa != nil && len(x.Call.Args) > 0 {
+			return RecvTypeName(fa.X.Type()), fieldName(fa.X.Type(), fa.Field), x.Call.Args[0], true
+		}
 	}
 	return "", "", nil, false
+}
+
+var accessorMemo = map[*ssa.Function]*ssa.FieldAddr{}
+
+// accessorField: g is a method of the module with one result, every return of which yields the current value of one
+// field of its receiver (loaded after whatever lazy initialisation the method performs). Returns that field access.
+func accessorField(g *ssa.Function) *ssa.FieldAddr {
+	if g == nil || len(g.Blocks) == 0 || g.Signature.Recv() == nil || g.Signature.Results().Len() != 1 || len(g.Params) == 0 {
+		return nil
+	}
+	if TheProg == nil || !TheProg.InModule(g) {
+		return nil
+	}
+	if fa, ok := accessorMemo[g]; ok {
+		return fa
+	}
+	var found *ssa.FieldAddr
+	okAll := true
+	for _, b := range g.Blocks {
+		ret, isRet := b.Instrs[len(b.Instrs)-1].(*ssa.Return)
+		if !isRet {
+			continue
+		}
+		u, isU := ret.Results[0].(*ssa.UnOp)
+		if !isU || u.Op != token.MUL {
+			okAll = false
+			break
+		}
+		fa, isFA := u.X.(*ssa.FieldAddr)
+		if !isFA || fa.X != ssa.Value(g.Params[0]) || (found != nil && found.Field != fa.Field) {
+			okAll = false
+			break
+		}
+		found = fa
+	}
+	if !okAll {
+		found = nil
+	}
+	accessorMemo[g] = found
+	return found
 }
 
 // VarIdentity resolves a value to the local variable (Alloc) it is a load of,
@@ -631,4 +796,90 @@ func StoreInstrsInto(a *ssa.Alloc) []*ssa.Store {
 		}
 	}
 	return out
+}
+
+// FuncValueTarget: the source function a function value denotes: a closure literal, a named function, or - for a
+// method value `x.m` - the method behind go/ssa's synthetic bound-method wrapper.
+func FuncValueTarget(v ssa.Value) *ssa.Function {
+	var fn *ssa.Function
+	switch x := v.(type) {
+	case *ssa.MakeClosure:
+		fn, _ = x.Fn.(*ssa.Function)
+	case *ssa.Function:
+		fn = x
+	case *ssa.ChangeType:
+		return FuncValueTarget(x.X)
+	}
+	if fn == nil {
+		return nil
+	}
+	if fn.Synthetic != "" && strings.HasSuffix(fn.Name(), "$bound") {
+		for _, b := range fn.Blocks {
+			for _, in := range b.Instrs {
+				if c, ok := in.(ssa.CallInstruction); ok {
+					if g := c.Common().StaticCallee(); g != nil {
+						return g
+					}
+				}
+			}
+		}
+		return nil
+	}
+	return fn
+}
+
+// ReturnedFieldValues: v is (a load of) field f of a struct that a module function returned (a result object such as
+// `info, err := loadSubmitInfo()` ... `info.electorate`). Returns the values that function stored into field f of
+// the struct it allocates and returns; ok is false when v is not such an access or the returned struct is not
+// allocated in the callee.
+func ReturnedFieldValues(v ssa.Value) (vals []ssa.Value, ok bool) {
+	v = Strip(v)
+	u, isU := v.(*ssa.UnOp)
+	if !isU || u.Op != token.MUL {
+		return nil, false
+	}
+	fa, isFA := u.X.(*ssa.FieldAddr)
+	if !isFA {
+		return nil, false
+	}
+	call, idx := CallOf(fa.X)
+	if call == nil {
+		return nil, false
+	}
+	g := call.Call.StaticCallee()
+	if g == nil || len(g.Blocks) == 0 || TheProg == nil || !TheProg.InModule(g) {
+		return nil, false
+	}
+	if idx < 0 {
+		idx = 0
+	}
+	found := false
+	for _, b := range g.Blocks {
+		ret, isRet := b.Instrs[len(b.Instrs)-1].(*ssa.Return)
+		if !isRet || idx >= len(ret.Results) {
+			continue
+		}
+		for _, o := range RetOrigins(ret.Results[idx]) {
+			switch a := Strip(o.V).(type) {
+			case *ssa.Const:
+				// nil on the failure returns
+			case *ssa.Alloc:
+				found = true
+				for _, r := range *a.Referrers() {
+					f2, isF2 := r.(*ssa.FieldAddr)
+					if !isF2 || f2.X != ssa.Value(a) || f2.Field != fa.Field {
+						continue
+					}
+					for _, rr := range *f2.Referrers() {
+						if st, isSt := rr.(*ssa.Store); isSt && st.Addr == ssa.Value(f2) {
+							vals = append(vals, st.Val)
+						}
+					}
+				}
+			default:
+				return nil, false
+			}
+		}
+	}
+	return vals, found
 }
